@@ -268,6 +268,82 @@ def _guarded_store(f, b, i, jv, COMPLETED):
     return True
 
 
+def run_q6(q6, P, tu, fname, vt):
+    """the request count R of get_next_burst(state, R, jobs) may be read only (a) in a rejecting guard, (b) in the comparison and the
+    assignment of the clamp `if (F > R) F = R` / `F = min(F, R)` where F holds queue_sz_remaining(); every other read lets the request
+    bypass the free count"""
+    f = P.func(tu, fname)
+    if len(f.params) < 2:
+        q6.bad(vt, f.loc, '%s has no request-count parameter' % fname)
+        return
+    R = f.params[1]['name']
+    # locals holding the free count
+    free = set()
+    for _, _, ev in f.events(('decl', 'assign')):
+        if ev['k'] == 'decl':
+            for d in ev['d']:
+                if d.get('init') is not None and any(n.get('k') == 'call' and n.get('fn') == 'queue_sz_remaining' for n in cf.walk(d['init'])):
+                    free.add(d['n'])
+        else:
+            l = cf.strip_casts(ev['lhs'])
+            if l.get('k') == 'ref' and ev.get('rhs') is not None and \
+                    any(n.get('k') == 'call' and n.get('fn') == 'queue_sz_remaining' for n in cf.walk(ev['rhs'])):
+                free.add(l['n'])
+    q6.check(bool(free), vt + ':free', f.loc, '%s does not read queue_sz_remaining()' % fname)
+
+    def mentions(e, name):
+        return any(n.get('k') == 'ref' and n.get('n') == name for n in cf.walk(e or {}))
+
+    def is_free_expr(e):
+        return any(n.get('k') == 'ref' and n.get('n') in free for n in cf.walk(e or {})) or \
+            any(n.get('k') == 'call' and n.get('fn') == 'queue_sz_remaining' for n in cf.walk(e or {}))
+    bad = []
+    nuse = 0
+    for bid, b in f.blocks.items():
+        t = b.get('term')
+        if t and t.get('cond') is not None and mentions(t.get('fullcond') or t['cond'], R):
+            nuse += 1
+            c = t.get('fullcond') or t['cond']
+            succ_guard = any(s_ is not None and guards.is_guard_block(f.blocks[s_]) for s_ in b['succ'])
+            if not (succ_guard or is_free_expr(c)):
+                bad.append(('condition `%s`' % cf.render(c), t.get('loc') or f.loc))
+        for ev in b['ev']:
+            if ev['k'] == 'assign' and mentions(ev.get('rhs'), R):
+                nuse += 1
+                l = cf.strip_casts(ev['lhs'])
+                rhs = cf.strip_casts(ev['rhs'])
+                ok = l.get('k') == 'ref' and l['n'] in free and ev['op'] == '=' and \
+                    ((rhs.get('k') == 'ref' and rhs['n'] == R) or (rhs.get('k') == 'cond' and is_free_expr(rhs)))
+                if ok and rhs.get('k') == 'ref':
+                    # the plain assignment must sit under a comparison of the free count with R
+                    dom = f.dominators()
+                    ok = any((f.blocks[d].get('term') or {}).get('cond') is not None and
+                             mentions(f.blocks[d]['term'].get('fullcond') or f.blocks[d]['term']['cond'], R) and
+                             is_free_expr(f.blocks[d]['term'].get('fullcond') or f.blocks[d]['term']['cond']) for d in dom.get(bid, ()) if d != bid)
+                if not ok:
+                    bad.append(('`%s %s %s`' % (cf.render(ev['lhs']), ev['op'], cf.render(ev['rhs'])), ev.get('sloc') or ev['loc']))
+            elif ev['k'] == 'decl':
+                for d in ev['d']:
+                    if d.get('init') is not None and mentions(d['init'], R):
+                        nuse += 1
+                        i_ = cf.strip_casts(d['init'])
+                        if i_.get('k') == 'cond' and is_free_expr(i_):
+                            free.add(d['n'])
+                        else:
+                            bad.append(('`%s = %s`' % (d['n'], cf.render(d['init'])), ev['loc']))
+            elif ev['k'] in ('call', 'return'):
+                for k in ('e', 'val'):
+                    if ev.get(k) is not None and mentions(ev[k], R) and not (ev['k'] == 'call' and ev['e'].get('fn') == 'imb_set_errno'):
+                        nuse += 1
+                        bad.append(('`%s`' % cf.render(ev[k]), ev.get('sloc') or ev['loc']))
+    q6.check(nuse >= 2, vt + ':uses', f.loc, '%s: the clamp of the request count against the free count is gone' % fname)
+    for what, loc in bad:
+        q6.bad('%s:%s' % (vt, loc.split(':')[-1]), loc, '%s: the request count %s is used in %s: slots are handed out without regard to the number of free slots' % (
+            fname, R, what))
+    if not bad:
+        q6.ok(vt)
+
+
 def run(chk):
     P = cf.Program()
     chk.explanation = ('Structural clauses of the in-order job ring, decided on the CFG of every variant TU: ring offsets are written '
@@ -290,6 +366,8 @@ def run(chk):
     q4 = chk.rule('Q4', 'full queue forces completion of the oldest job; completion loops terminate only on status >= COMPLETED',
                   floor=40)
     q5 = chk.rule('Q5', 'job-API and burst-API siblings (resubmit / submit_new / complete) have the same event skeleton', floor=20)
+    q6 = chk.rule('Q6', 'get_next_burst hands out no more slots than are free: the requested count is used only in parameter guards and in '
+                        'the clamp against the free count', floor=8)
     nvar = 0
     mgr = P.record('IMB_MGR')
     jobsz = P.record('IMB_JOB')['size']
@@ -307,6 +385,9 @@ def run(chk):
         vt = tu.split('__')[0]
         allowed = closure(P, tu, [roles[r_] for r_ in WRITER_ROLES if r_ in roles]) | \
             {f.name for f in P.funcs(tu) if re.match(r'init_mb_mgr_\w+_internal$', f.name)}
+        # ---- Q6
+        if roles.get('get_next_burst') and P.has(tu, roles['get_next_burst']):
+            run_q6(q6, P, tu, roles['get_next_burst'], vt)
         # ---- Q1
         for f in P.funcs(tu):
             for b, i, ev in f.events(('assign', 'call', 'decl')):
